@@ -3,6 +3,7 @@ package soyhtml
 import (
 	"github.com/robfig/soy/data"
 	"github.com/robfig/soy/parse"
+	"github.com/robfig/soy/parsepasses"
 	"github.com/robfig/soy/template"
 )
 
@@ -130,6 +131,7 @@ var c15Pre = []struct{ src, out string }{
 	{"{call .u /}", "u"},
 	{"{msg desc=\"d\"}", "{/msg}"}, // (index 7: the run is the text of a message; src closes it)
 	{"", ""},                       // (index 8: the run follows a header param declaration)
+	{"{msg desc=\"d\"}", "{/msg}"}, // (index 9: message text with capital letters)
 }
 
 // H_textlex: a template body of n characters over {a < > space LF CR / * :} (concrete per path)
@@ -167,7 +169,16 @@ func H_textlex(n, ctx int) {
 			src = "{namespace n}\n{template .t autoescape=\"false\"}\n{@param x: ?}" + body + "{$x}\n{/template}\n"
 			preOut = ""
 		}
-		if ctx == 10 {
+		if ctx == 12 {
+			// message text with capital letters (tag names in any case are written back as they are)
+			for i := range b {
+				if b[i] == 'a' {
+					b[i] = 'A'
+				}
+			}
+			body, run = string(b), string(b)
+		}
+		if ctx == 10 || ctx == 12 {
 			// the text of a message (tags in it become placeholders and are written back as they are)
 			src = "{namespace n}\n/** @param x */\n{template .t autoescape=\"false\"}\n{msg desc=\"d\"}" + body + "{/msg}{$x}\n{/template}\n"
 			preOut = ""
@@ -181,13 +192,16 @@ func H_textlex(n, ctx int) {
 		verifAssert(err != nil, "an unclosed block comment was accepted")
 		return
 	}
-	if ctx == 10 && openLine {
+	if (ctx == 10 || ctx == 12) && openLine {
 		// a line comment left open by the run extends over the {/msg} on the same line
 		verifAssert(err != nil, "a message whose closing tag lies inside a line comment was accepted")
 		return
 	}
 	verifAssert(err == nil, "template text rejected by the parser")
 	verifAssert(reg.Add(f) == nil, "harness: registry")
+	if ctx == 10 || ctx == 12 {
+		parsepasses.ProcessMessages(reg) // as compiling a bundle does: placeholder names and ids
+	}
 	out, rerr := verifRender(NewTofu(&reg), "n.t", data.Map{"x": data.String("|")})
 	verifObserve("out", out)
 	verifAssert(rerr == nil, "render failed")
